@@ -78,7 +78,7 @@ MODES = "mie"
 # the oracle: judges the IMPLEMENTATION's answer against the property text only
 
 _TOTAL = re.compile(r"len=(\d+) lex=(ok|panic|runaway|err@(\d+)) n=(\d+) parse=(ok|panic|err@(\d+))"
-                    r"(?: lex_us=(\d+) parse_us=(\d+))?$")
+                    r"(?: lex_us=(\d+) parse_us=(\d+) cpu_ms=(\d+|na))?$")
 _KERNEL = re.compile(r"(ok(?: \S+)?|other|panic|err@(\d+))$")
 
 _LADDER = {}        # shape -> {chars: {"lex_us":…, "parse_us":…}}; filled by the oracle, reported via ctx.extra
@@ -145,11 +145,14 @@ def oracle(req, out):
                 return f"{stage} error offset {off} (relative {off - start}) is not on a character boundary"
         if m.group(7) is not None and op == "time":
             shape = ws[7] if len(ws) > 7 else "?"
-            _LADDER.setdefault(shape, {})[n] = {"lex_us": int(m.group(7)), "parse_us": int(m.group(8))}
+            cpu = m.group(9)
+            cpu_ms = int(cpu) if cpu not in (None, "na") else (int(m.group(7)) + int(m.group(8))) // 1000
+            _LADDER.setdefault(shape, {})[n] = {"lex_us": int(m.group(7)), "parse_us": int(m.group(8)), "cpu_ms": cpu_ms}
             _refit()
-            # conservative: only a gross blow-up on the largest rung of the thorough tier is flagged
-            if _STATE["tier"] == "thorough" and n >= 1_000_000 and int(m.group(7)) + int(m.group(8)) > 60_000_000:
-                return f"lexing+parsing {n} bytes took more than 60 s"
+            # conservative: only a gross blow-up on the largest rung of the thorough tier is flagged, and it is
+            # judged on CPU time (wall time depends on the load of the machine)
+            if _STATE["tier"] == "thorough" and n >= 1_000_000 and cpu_ms > 60_000:
+                return f"lexing+parsing {n} bytes took more than 60 s of CPU time"
         return None
     if op in ("oct", "uni", "name", "fnest"):
         m = _KERNEL.match(out)
@@ -171,10 +174,45 @@ def oracle(req, out):
 
 
 def _lex_oracle(ws, out):
-    """C05's `lex` op pushed with C03's inputs: only the C03 part is judged here."""
-    if "panic" in out.split()[:2]:
+    """C05's `lex` op fed with C03's inputs: only what C03 says is judged here (no panic, the stream
+    ends, error offset inside the input and on a character boundary)."""
+    start = int(ws[2])
+    src = unhex(ws[3])
+    if out.startswith("(panic)"):
         return "the lexer panicked"
+    if "(runaway)" in out or "(out-of-fuel)" in out:
+        return "the token stream before the first error does not end"
+    m = re.search(r"\(err (\S+) (\d+)\)$", out)
+    if m:
+        off = int(m.group(2))
+        if not (start <= off <= start + len(src)):
+            return f"lexer error offset {off} outside [{start}, {start + len(src)}]"
+        if not _is_boundary(src, off - start):
+            return f"lexer error offset {off} (relative {off - start}) is not on a character boundary"
+    elif not out.endswith("(end)"):
+        return "unparsable answer " + out[-60:]
     return None
+
+
+def _tripped():
+    """has the harness' watchdog fired so often in this run that it now answers `(skipped)`?"""
+    p = os.environ.get("PVH_C03_TRIP")
+    try:
+        return bool(p) and os.path.getsize(p) >= 6
+    except OSError:
+        return False
+
+
+def canon(req, out):
+    """applied to both answers before they are compared: the model prints float tokens as numeral text.
+    Once the watchdog has tripped (the hangs are already reported as oracle failures) the harness skips
+    every request; the skipped correspondence requests are then not counted as disagreements."""
+    if not req.startswith("lex") and _tripped():
+        return "(skipped)"
+    if req.startswith("lex") and out is not None:
+        import lexcommon
+        return lexcommon.canon_floats(out)
+    return out
 
 
 def _fit(points):
@@ -203,6 +241,7 @@ def _refit():
             "parse_exponent": _fit([(n, v["parse_us"]) for n, v in sorted(rungs.items())]),
             "lex_us_at_max": rungs[max(rungs)]["lex_us"],
             "parse_us_at_max": rungs[max(rungs)]["parse_us"],
+            "cpu_ms_at_max": rungs[max(rungs)]["cpu_ms"],
         }
 
 
@@ -258,7 +297,7 @@ def _rot(i, src):
 
 
 ALPHABET = ["a", "1", "0", " ", "\t", "\n", "\r", "(", ")", "[", "}", "'", '"', "\\", "#", ".", "e", "_", "=", "!",
-            ":", "-", "é", "😀", "﻿", "\x0c", "f", "b", "j", "x", ",", "*", "{", "\x00", "́"]
+            ":", "-", "é", "😀", "﻿", "\x0c", "f", "b", "j", "x", ",", "*", "{", "\x00", "́", "r"]
 
 CORPUS = (G.STRINGS + G.BAD_STRINGS + G.NUMBERS + G.BAD_NUMBERS + G.OPERATORS + [
     "", " ", "\n", "\r", "\r\n", "\t", "\x0c", "\x00", "﻿", "﻿﻿", "﻿\n", "#", "# c", "#\r", "\\", "\\\n", "\\\r\n", "\\\r",
@@ -302,6 +341,12 @@ CORPUS = (G.STRINGS + G.BAD_STRINGS + G.NUMBERS + G.BAD_NUMBERS + G.OPERATORS + 
     "1_" * 2000 + "1", "1" + "_1" * 2000 + "j", "." + "1" * 1000, "1." + "1" * 1000 + "j", "00000000000000000000000000000000000001",
     "0000000000.0", "00e0", "00j", "0_0_0", "09.5", "0e", "09", "0777", "0b1_", "0x_", "0x_f", "0o_7_", "1e1_", "1_.0", "1._0",
     "1.0_", "1e+_1", "1E_1", "1J1", "1jj", "1.j", ".j", ".e1", ". 1", ".1.", "1.1.1", "1..", "1...", "1....",
+    # string prefixes with and without a quote behind them, at end of input and before other characters
+    "r", "b", "f", "u", "rb", "br", "Rb", "bR", "BR", "fr", "rf", "Fr", "rF", "ur", "bu", "rr", "bb", "rb ", "rb1", "rbx",
+    "rb\n", "fr#", "rb'", 'rb"', "fr'", "rf'''", 'bR"""', "rb'\\", "ub'x'", "fb'x'", "bf'x'", "rbr'x'", "r'", 'b"', "f'",
+    "u'", "r''", "b''b", "x = rb", "x = fr\n", "(rb", "[fr]", "rb.x", "rb=1", "br: int",
+    # comments and other constructs that end exactly at end of input
+    "x #", "x # c", "  #", "\t# c", "(#", "(# c", "x\n#", "x\n  # c", "if x:\n  y\n  # c", "if x:\n  y\n# c", "'''a''' #",
 ])
 
 
@@ -572,8 +617,72 @@ def _stdlib(ctx):
 def _c05_ready():
     return (os.path.exists(os.path.join(core.LEAN, "Drv", "C05.lean"))
             and os.path.exists(os.path.join(core.HARNESS, "src", "bin", "pvh_c05.rs"))
-            and os.path.exists(os.path.join(core.VERIF, "design", "LEXER_MODEL.md"))
-            and os.path.exists(os.path.join(core.VERIF, "tools", "props", "c05.py")))
+            and os.path.exists(os.path.join(core.VERIF, "tools", "lexcommon.py")))
+
+
+EXTRA_DRIVERS = ["drv_c05"] if _c05_ready() else []
+
+LEX_SHAPES = [("", "(", ""), ("", ")", ""), ("x = ", "[", None), ("", "\\\n", "x"), ("", "\\\n", ""), ("x = '", "a\\\r\n", "'"),
+              ("'''", "\r\n", ""), ("", "\x0c", "x"), ("if x:\n", " ", "y"), ("if x:\n\ty\n", " ", "z"), ("", "é", ""),
+              ("", "\r", ""), ("", "1_", "1"), ("0", "0", "1"), ("1.", "0", "e"), ("", "\t", "x"), ("#", "é", ""),
+              ("(", "#c\n", ""), ("", "match\n", ""), ("", "﻿", "x"), ("", "😀", ""), ("", "x\r\n", ""), ("rb'", "\\'", ""),
+              ("", "'a' ", ""), ("", "0x", ""), ("", "1e", ""), ("", "!", ""), ("", "\x00", "")]
+
+
+def _lexmodel_streams(ctx, progs, small):
+    import lexcommon as LC
+    quick = ctx.quick
+    plain = LC.PLAIN_HARNESS
+    out = []
+
+    def LX(i, src):
+        b = src.encode("utf-8")
+        st = _starts(len(b))
+        start = [0, 0, 0, st[1], 0, st[2], 0, st[3], 0, st[4]][i % 10]
+        return LC.lexreq(src, "mmmmmiie"[i % 8], start)
+    reqs = []
+    for s in CORPUS:
+        b = s.encode("utf-8")
+        if len(b) > 3000:
+            continue
+        for mode in MODES:
+            reqs.append(LC.lexreq(s, mode, 0))
+        for st in _starts(len(b))[1:]:
+            reqs.append(LC.lexreq(s, "m", st))
+    out.append(Stream("lexmodel-corpus", reqs, kind="corpus", driver="drv_c05", harness=plain,
+                      note="curated texts x 3 modes + start offsets 1, 400, 2^31, 2^32-1-len through the lexer model",
+                      nontrivial=lambda r: r.split()[3] != "-"))
+    reqs = []
+    for n in range(0, 4):
+        for tup in itertools.product(ALPHABET if n < 3 else ALPHABET[:26] + ["r"], repeat=n):
+            reqs.append(LC.lexreq("".join(tup), "m", 0))
+    out.append(Stream("lexmodel-short-texts", reqs, kind="exhaustive", driver="drv_c05", harness=plain, exhaustive=True,
+                      note="every text of length <= 2 over %d symbols and of length 3 over 27 symbols" % len(ALPHABET),
+                      nontrivial=lambda r: r.split()[3] != "-"))
+    rngl = ctx.rng("lexmodel")
+    nl = 2500 if quick else 60000
+    reqs = [LX(i, G.mutate(rngl, progs[i % len(progs)])) for i in range(nl)]
+    reqs += [LX(i, G.token_soup(rngl)) for i in range(nl)]
+    reqs += [LX(i, G.random_unicode(rngl)) for i in range(nl)]
+    reqs += [LX(i, p) for i, p in enumerate(progs[: nl // 2])]
+    for t in small[: 10 if quick else 150]:
+        reqs.append(LC.lexreq(G.mutate(rngl, t), "m", 0))
+    out.append(Stream("lexmodel-invalid-families", reqs, kind="malformed", driver="drv_c05", harness=plain,
+                      note="mutations, token soups, random Unicode, valid programs, mutated stdlib files; modes and offsets rotated"))
+    reqs = []
+    for d in ([1, 10, 100, 1000] if quick else [1, 10, 100, 1000, 5000]):
+        for pre, unit, suf in LEX_SHAPES:
+            text = pre + unit * d + ("]" * d if suf is None else suf)
+            reqs.append(LC.lexreq(text, "m", 0))
+            reqs.append(LC.lexreq(text, "e", U32MAX - len(text.encode())))
+    for d in ([5, 50] if quick else [5, 50, 300]):
+        for nl_ in ("\n", "\r\n"):
+            s = G.indent_staircase(d, nl=nl_)
+            reqs += [LC.lexreq(s, "m", 0), LC.lexreq(s + " " * (d // 2) + " y" + nl_, "m", 1),
+                     LC.lexreq(G.indent_staircase(d, nl=nl_, unit="\t ") + "\t" * d + "z" + nl_, "m", 0)]
+    out.append(Stream("lexmodel-pathological", reqs, kind="directed", driver="drv_c05", harness=plain,
+                      note="long runs, nesting, staircases, continuation lines, offsets ending at 2^32-1"))
+    return out
 
 
 def streams(ctx):
@@ -666,6 +775,7 @@ def streams(ctx):
             mt = G.mutate(rngs, t)
             reqs.append(T("m", [0, 1, U32MAX - len(mt.encode())][(i + j) % 3], mt))
     out.append(Stream("mutations-of-stdlib", reqs, kind="malformed", compare=False, note="single edits of real files"))
+    small = [t for t in small if len(t) < 20_000]
 
     # 6. token soups and random Unicode
     rngt = ctx.rng("soups")
@@ -683,6 +793,14 @@ def streams(ctx):
     out.append(Stream("pathological", _pathological(ctx), kind="directed", compare=False,
                       note="nesting up to %d levels (native stack limit measured at about 1.0e5), long lines, many dedents, "
                            "huge numbers, f-string nesting, \\N names, offsets ending at 2^32-1" % (5000 if quick else 20000)))
+
+    # 7b. the same (mostly invalid) input families through the shared LEXER MODEL (C05's `lex` op):
+    #     correspondence of the whole token stream and of the first error (kind and offset) — the tie of
+    #     PV.C03's lexer theorems to the code
+    if _c05_ready():
+        out.extend(_lexmodel_streams(ctx, progs, small))
+    else:
+        ctx.notes.append("lexer-model streams skipped: drv_c05 / pvh_c05 / tools/lexcommon.py not present")
 
     # 8. time growth
     out.append(Stream("time-ladder", _ladder(ctx), kind="directed", compare=False,
